@@ -122,7 +122,12 @@ def capture_probe(rng):
     elif rng.random() < 0.5:
         files["/".join(other) + ".pyxis"] = "pub type ZzOther { pub a: u32 }\n"
     new = dict(files)
-    new["/".join(other) + ".pyxis"] = files.get("/".join(other) + ".pyxis", "") + "pub type %s { pub zz: [u8; %d] }\n" % (name, k2)
+    if where == "child" and rng.random() < 0.7:
+        # the nested child's type owns a vftable: its generated <T>Vftable struct belongs to the child's file only
+        new["/".join(other) + ".pyxis"] = files.get("/".join(other) + ".pyxis", "") + \
+            "pub type %s {\n    vftable {\n        pub fn zz_v(&self) -> u32;\n    },\n    pub zz: [*const u8; %d]\n}\n" % (name, rng.randint(1, 4))
+    else:
+        new["/".join(other) + ".pyxis"] = files.get("/".join(other) + ".pyxis", "") + "pub type %s { pub zz: [u8; %d] }\n" % (name, k2)
     if where == "namesake":
         new["/".join(other) + ".pyxis"] += "pub type ZzUser { pub h: %s, pub q: *mut %s }\n#[address(0x4000)]\npub extern zz_g: %s;\n" % (name, name, name)
         if rng.random() < 0.5:
